@@ -29,7 +29,7 @@ def build(tier, seed):
             n += 1
             for w in whichs:
                 fn = "c13_o5_sel_t%d_l%d%d_%s" % (tk, a, b, WHICH[w])
-                lines.append("#[kani::proof]\n#[kani::unwind(4)]\n#[kani::stub(alloc::fmt::format, stub_format)]\nfn %s() { selection_body::<%d, %d, %d, %d>() }" % (fn, tk, a, b, w))
+                lines.append("#[kani::proof]\n#[kani::unwind(7)]\n#[kani::stub(alloc::fmt::format, stub_format)]\nfn %s() { selection_body::<%d, %d, %d, %d>() }" % (fn, tk, a, b, w))
                 S("O13.5 select %s type=%s limits=%s/%s" % (WHICH[w], KIND[tk], KIND[a], KIND[b]), fn,
                   "attribute type %s, limit kinds (%s,%s), all finite values within +-1e30 / +-2^40" % (KIND[tk], KIND[a], KIND[b]),
                   "limits used iff both present, same kind and Single/Double/Integer; otherwise the data type's range", timeout=900)
